@@ -17,7 +17,7 @@ RATE_TABLE = [
 
 
 def gen(rng, *, ia: bool = True, time: bool = True, conditionals: bool = True, computed_dynamic: bool = True,  # noqa: ANN001
-        untouched: bool = True, max_vars: int = 5, untranslatable: bool = False, module_state: float = 0.0, magnitudes: float = 0.0) -> dict:
+        untouched: bool = True, max_vars: int = 5, untranslatable: bool = False, module_state: float = 0.0, magnitudes: float = 0.0, equality_gates: bool = True) -> dict:
     L = fl.ref
     nvar = rng.randint(1, max_vars)
     variables = [f"x{i}" for i in range(nvar)]
@@ -56,6 +56,10 @@ def gen(rng, *, ia: bool = True, time: bool = True, conditionals: bool = True, c
     touched = set()
     nrx = rng.randint(1, 4)
     table = [r for r in RATE_TABLE if (time or "t" not in r[1]) and (conditionals or r[0] not in (tr.t_cond, tr.t_chain, tr.t_elif, tr.t_cap, tr.t_nestif, tr.t_guarded, tr.t_eqgate))]
+    if not equality_gates:
+        # (a rate law that tests quantities for equality has, exactly where the equality holds, a derivative that is not the
+        # derivative of the branch taken there; callers that compare Jacobians leave it out)
+        table = [r for r in table if r[0] is not tr.t_eqgate]
     for j in range(nrx):
         fn, kinds = rng.choice(table)
         if untranslatable and j == 0:
